@@ -10,6 +10,8 @@ From SV Require Import proofs.CleanProofs.
 From SV Require Import proofs.CleanDirs.
 From SV Require Import proofs.CleanLinks.
 From SV Require Import proofs.CleanPhases.
+From SV Require Import model.CleanParents.
+From SV Require Import proofs.CleanParents.
 Import ListNotations.
 Open Scope N_scope.
 
@@ -110,6 +112,26 @@ Proof. exact removed_only_owned_across_phases_requeue_refuted. Qed.
 Theorem C06_requeue_variant_is_the_code :
   rdf_requeues_failed = true -> ~ C06_removed_only_owned_across_phases.
 Proof. exact requeue_variant_is_the_code. Qed.
+
+(* Directories on the way to an output that are symbolic links (outside assumption A-links of model/Clean.v; modelled
+   in model/CleanParents.v: the kernel redirects the path at the first directory component that is a link).
+   Finding linked-parent-directory: "os.remove(p) takes away nothing but p" is FALSE -- the user copied the results
+   to b/, made r a link to b/, and the queued output r/o (which reads as the recorded hash through the link) is the
+   user's own b/o, which vanishes although no step ever declared it.  With the has_linked_parent guard (flags
+   rdf_skips_linked_parents / clean_skips_linked_parents, regenerated) the removal primitive is only applied to paths
+   without a linked directory on the way, and then it is exactly the rm_file of model/Clean.v: the entry p goes and
+   nothing else. *)
+Theorem C06_unlink_behind_linked_directory_refuted : ~ unlink_removes_only_its_path.
+Proof. exact unlink_removes_only_its_path_refuted. Qed.
+
+Theorem C06_unlink_guarded :
+  forall f p f', has_linked_parent f p = false -> kernel_unlink f p = (f', true) ->
+    forall q, fs_get f q <> None -> fs_get f' q = None -> q = p.
+Proof. exact unlink_removes_only_its_path_guarded. Qed.
+
+Theorem C06_guarded_unlink_is_model_unlink :
+  forall f p, has_linked_parent f p = false -> kernel_unlink f p = rm_file f p.
+Proof. exact guarded_unlink_is_model_unlink. Qed.
 
 (* The regenerated branching itself: the recorded hash is compared whatever lstat reports for the queued path,
    and for the path handed to `stepup clean`; `clean` treats a path as missing when stat (following links) fails. *)
